@@ -174,11 +174,12 @@ structure Fresh (st : UpState) (s T : Nat) : Prop where
   it : st.it = iat 0 s
   al : Align s T
   grow : st.grow = false
-  last : ∀ r, st.cs.roots.getLast? = some r → ∃ m o, r.index = Flat.index m o ∧ T < s + 2 ^ m
+  last : ∀ r, st.cs.roots.getLast? = some r → ∃ m o, r.index = Flat.index m o ∧ T < s + 2 ^ m ∧ m ≤ 64
 
 theorem upgradeRoots_fresh (C : Crypto) (T : Nat) (hT : T < 2 ^ 64) : ∀ (fuel : Nat) (st st' : UpState) (s : Nat),
     Fresh st s T → upgradeRoots C (2 * T) fuel st = .ok st' →
-      (∀ r ∈ st.cs.roots, r ∈ st'.cs.roots) ∧ (∀ e, st.q.extra = some e → st'.q.extra = none → e ∈ st'.cs.roots) := by
+      (∀ r ∈ st.cs.roots, r ∈ st'.cs.roots) ∧ (∀ e, st.q.extra = some e → st'.q.extra = none → e ∈ st'.cs.roots)
+        ∧ (∀ r, st'.cs.roots.getLast? = some r → ∃ m o, r.index = Flat.index m o ∧ m ≤ 64) := by
   intro fuel
   induction fuel with
   | zero => intro st st' s _ h; simp [upgradeRoots] at h
@@ -195,8 +196,8 @@ theorem upgradeRoots_fresh (C : Crypto) (T : Nat) (hT : T < 2 ^ 64) : ∀ (fuel 
       · -- an existing root at this position
         have hf' : Fresh { st with i := st.i + 1, it := (iat J (s / 2 ^ J)).nextTree, grow := false } (s + 2 ^ J) T :=
           ⟨hnext, hal', rfl, fun r hr => by
-            obtain ⟨m, o, h1, h2⟩ := hf.last r hr
-            exact ⟨m, o, h1, by omega⟩⟩
+            obtain ⟨m, o, h1, h2, h3⟩ := hf.last r hr
+            exact ⟨m, o, h1, by omega, h3⟩⟩
         exact ih { st with i := st.i + 1, it := (iat J (s / 2 ^ J)).nextTree, grow := false } st' _ hf' h
       · -- the next supplied node becomes a root
         cases hsh : st.q.shift (iat J (s / 2 ^ J)).index with
@@ -208,7 +209,7 @@ theorem upgradeRoots_fresh (C : Crypto) (T : Nat) (hT : T < 2 ^ 64) : ∀ (fuel 
           obtain ⟨hni, hex⟩ := shift_cases st.q _ n q1 hsh
           have hnm : ∀ b, st.cs.roots.getLast? = some b → (iat J (s / 2 ^ J)).sibling.index ≠ b.index := by
             intro b hb hcon
-            obtain ⟨m, o, h1, h2⟩ := hf.last b hb
+            obtain ⟨m, o, h1, h2, _⟩ := hf.last b hb
             rw [iat_sibling, h1] at hcon
             have := (index_inj _ _ _ _ hcon).1
             have hlt : 2 ^ J < 2 ^ m := by omega
@@ -228,9 +229,15 @@ theorem upgradeRoots_fresh (C : Crypto) (T : Nat) (hT : T < 2 ^ 64) : ∀ (fuel 
               rw [hroots] at hr'
               simp at hr'
               subst hr'
-              exact ⟨J, s / 2 ^ J, hni, hmax⟩⟩
-          obtain ⟨i1, i2⟩ := ih { st with cs := cs1, it := it1.nextTree, q := q1, grow := false } st' _ hf' h
-          refine ⟨fun r hr => i1 r (by show r ∈ cs1.roots; rw [hroots]; simp [hr]), fun e he hn => ?_⟩
+              have hJ64 : J ≤ 64 := by
+                by_cases hle : J ≤ 64
+                · exact hle
+                · exfalso
+                  have : 2 ^ 64 ≤ 2 ^ J := Nat.pow_le_pow_right (by decide) (by omega)
+                  omega
+              exact ⟨J, s / 2 ^ J, hni, hmax, hJ64⟩⟩
+          obtain ⟨i1, i2, i3⟩ := ih { st with cs := cs1, it := it1.nextTree, q := q1, grow := false } st' _ hf' h
+          refine ⟨fun r hr => i1 r (by show r ∈ cs1.roots; rw [hroots]; simp [hr]), fun e he hn => ?_, i3⟩
           rcases hex with hx | ⟨hx1, hx2⟩
           · exact i2 e (by show q1.extra = some e; rw [hx, he]) hn
           · have : e = n := by rw [he] at hx1; exact Option.some.inj hx1
@@ -239,7 +246,170 @@ theorem upgradeRoots_fresh (C : Crypto) (T : Nat) (hT : T < 2 ^ 64) : ∀ (fuel 
     · rw [fullRoot_done s T (by omega)] at h
       simp only [Bool.not_false, ite_true, Except.ok.injEq] at h
       subst h
-      exact ⟨fun r hr => hr, fun e he hn => by simp only at hn; rw [he] at hn; cases hn⟩
+      refine ⟨fun r hr => hr, (fun e he hn => by simp only at hn; rw [he] at hn; cases hn), fun r hr => ?_⟩
+      obtain ⟨m, o, h1, _, h3⟩ := hf.last r hr
+      exact ⟨m, o, h1, h3⟩
+
+/-! ### authenticity flows backwards through `append_root` -/
+
+/-- the node carries the authentic hash for its position -/
+def AuthH (C : Crypto) (bs : Array Bytes) (n : Node) : Prop :=
+  ∀ d o, n.index = Flat.index d o → n.hash = (RefTree.node C bs d o).2
+
+theorem authH_at (C : Crypto) (bs : Array Bytes) (n : Node) (d o : Nat) (hi : n.index = Flat.index d o)
+    (hh : n.hash = (RefTree.node C bs d o).2) : AuthH C bs n := by
+  intro d' o' h'
+  rw [hi] at h'
+  obtain ⟨rfl, rfl⟩ := index_inj _ _ _ _ h'
+  exact hh
+
+/-- `mergeLoop`, read backwards: if every root it leaves is authentic then — absent a collision — so was every
+    root it started from (in particular the node just appended); the iterator it returns is canonical and
+    sits on the last root -/
+theorem mergeLoop_back (C : Crypto) (bs : Array Bytes) : ∀ (fuel : Nat) (a : Node) (rest nodes : List Node) (d o : Nat),
+    a.index = Flat.index d o →
+      (∃ d' o', (mergeLoop C fuel (a :: rest) nodes (iat d o)).2.2 = iat d' o'
+        ∧ ∃ a' rest', (mergeLoop C fuel (a :: rest) nodes (iat d o)).1 = a' :: rest' ∧ a'.index = Flat.index d' o')
+      ∧ ((∀ x ∈ (mergeLoop C fuel (a :: rest) nodes (iat d o)).1, AuthH C bs x) → Collision C ∨ ∀ x ∈ a :: rest, AuthH C bs x) := by
+  intro fuel
+  induction fuel with
+  | zero =>
+    intro a rest nodes d o ha
+    simp only [mergeLoop]
+    exact ⟨⟨d, o, rfl, a, rest, rfl, ha⟩, fun h => Or.inr h⟩
+  | succ fuel ih =>
+    intro a rest nodes d o ha
+    cases rest with
+    | nil =>
+      simp only [mergeLoop]
+      exact ⟨⟨d, o, rfl, a, [], rfl, ha⟩, fun h => Or.inr h⟩
+    | cons b rest =>
+      simp only [mergeLoop]
+      by_cases hne : (iat d o).sibling.index ≠ b.index
+      · simp only [hne, ne_eq, not_false_eq_true, ite_true]
+        exact ⟨⟨d, o, iat_sibling_sibling d o, a, b :: rest, rfl, ha⟩, fun h => Or.inr h⟩
+      · have hb : b.index = Flat.index d (sib o) := by
+          have : (iat d o).sibling.index = b.index := by simpa using hne
+          rw [iat_sibling] at this; exact this.symm
+        simp only [hne, ite_false]
+        rw [iat_sibling, iat_parent, sib_half]
+        generalize hn : (⟨(iat (d + 1) (o / 2)).index, a.length + b.length, parentHash C a b⟩ : Node) = n
+        have hni : n.index = Flat.index (d + 1) (o / 2) := by rw [← hn]; rfl
+        obtain ⟨hc, hback⟩ := ih n rest (n :: nodes) (d + 1) (o / 2) hni
+        refine ⟨hc, fun hall => ?_⟩
+        rcases hback hall with hcol | hprev
+        · exact Or.inl hcol
+        · have hnA := hprev n (by simp)
+          have hnh : parentHash C a b = (RefTree.node C bs (d + 1) (o / 2)).2 := by
+            have := hnA (d + 1) (o / 2) hni
+            rw [← hn] at this; exact this
+          rcases parent_step C bs d o a b ha hb hnh with hcol | ⟨h1, h2, _⟩
+          · exact Or.inl hcol
+          · refine Or.inr fun x hx => ?_
+            rcases List.mem_cons.mp hx with rfl | hx
+            · exact authH_at C bs _ d o ha h1
+            · rcases List.mem_cons.mp hx with rfl | hx
+              · exact authH_at C bs _ d (sib o) hb h2
+              · exact hprev x (by simp [hx])
+
+/-- `append_root`, read backwards -/
+theorem appendRoot_back (C : Crypto) (bs : Array Bytes) (cs : Changeset) (n : Node) (d o : Nat) (hn : n.index = Flat.index d o) :
+    (∃ d' o', (appendRoot C cs n (iat d o)).2 = iat d' o'
+        ∧ ∃ last, (appendRoot C cs n (iat d o)).1.roots.getLast? = some last ∧ last.index = Flat.index d' o')
+      ∧ ((∀ x ∈ (appendRoot C cs n (iat d o)).1.roots, AuthH C bs x) → Collision C ∨ ((∀ x ∈ cs.roots, AuthH C bs x) ∧ AuthH C bs n)) := by
+  obtain ⟨⟨d', o', h1, a', rest', h2, h3⟩, hback⟩ := mergeLoop_back C bs (cs.roots.length + 1) n cs.roots.reverse (n :: cs.rnodes) d o hn
+  unfold appendRoot
+  generalize hm : mergeLoop C (cs.roots.length + 1) (n :: cs.roots.reverse) (n :: cs.rnodes) (iat d o) = m at h1 h2 hback
+  obtain ⟨rr, rn, it'⟩ := m
+  simp only at h1 h2 hback ⊢
+  refine ⟨⟨d', o', h1, a', ?_, h3⟩, fun hall => ?_⟩
+  · rw [h2]; simp
+  · rcases hback (fun x hx => hall x (by simpa using hx)) with hcol | hprev
+    · exact Or.inl hcol
+    · exact Or.inr ⟨fun x hx => hprev x (by simp [hx]), hprev n (by simp)⟩
+
+/-! ### additional nodes, read backwards -/
+
+theorem extraSiblings_back (C : Crypto) (bs : Array Bytes) : ∀ (fuel : Nat) (cs : Changeset) (d o : Nat) (ex : List Node),
+    (∃ d' o', (extraSiblings C fuel cs (iat d o) ex).2.1 = iat d' o')
+      ∧ ((∀ x ∈ (extraSiblings C fuel cs (iat d o) ex).1.roots, AuthH C bs x) → Collision C ∨ ∀ x ∈ cs.roots, AuthH C bs x) := by
+  intro fuel
+  induction fuel with
+  | zero => intro cs d o ex; simp only [extraSiblings]; exact ⟨⟨d, o, rfl⟩, fun h => Or.inr h⟩
+  | succ fuel ih =>
+    intro cs d o ex
+    cases ex with
+    | nil => simp only [extraSiblings]; exact ⟨⟨d, o, rfl⟩, fun h => Or.inr h⟩
+    | cons n ex =>
+      simp only [extraSiblings]
+      rw [iat_sibling]
+      by_cases hn : n.index = (iat d (sib o)).index
+      · simp only [hn, ite_true]
+        obtain ⟨⟨d', o', h1, _⟩, hback⟩ := appendRoot_back C bs cs n d (sib o) hn
+        generalize har : appendRoot C cs n (iat d (sib o)) = ar at h1 hback
+        obtain ⟨cs1, it1⟩ := ar
+        simp only at h1 hback ⊢
+        rw [h1]
+        obtain ⟨hc, hb2⟩ := ih cs1 d' o' ex
+        refine ⟨hc, fun hall => ?_⟩
+        rcases hb2 hall with hcol | hprev
+        · exact Or.inl hcol
+        · rcases hback hprev with hcol | ⟨h2, _⟩
+          · exact Or.inl hcol
+          · exact Or.inr h2
+      · simp only [hn, ite_false]
+        exact ⟨⟨d, sib o, rfl⟩, fun h => Or.inr h⟩
+
+theorem descendTo_canon (target : Nat) : ∀ (fuel d o : Nat) (it1 : Iter), descendTo target fuel (iat d o) = .ok it1 →
+    ∃ d' o', it1 = iat d' o' ∧ Flat.index d' o' = target := by
+  intro fuel
+  induction fuel with
+  | zero => intro d o it1 h; simp [descendTo] at h
+  | succ fuel ih =>
+    intro d o it1 h
+    unfold descendTo at h
+    split at h
+    · rename_i hidx
+      cases h
+      exact ⟨d, o, rfl, hidx⟩
+    · split at h
+      · cases h
+      · rename_i hf2
+        cases d with
+        | zero => exfalso; apply hf2; simp [iat]
+        | succ d =>
+          rw [Offsets.iat_leftChild] at h
+          exact ih d (2 * o) it1 h
+
+theorem extraRest_back (C : Crypto) (bs : Array Bytes) : ∀ (ex : List Node) (cs : Changeset) (d o : Nat) (res : Changeset × Iter),
+    extraRest C cs (iat d o) ex = .ok res →
+      (∀ x ∈ res.1.roots, AuthH C bs x) → Collision C ∨ ∀ x ∈ cs.roots, AuthH C bs x := by
+  intro ex
+  induction ex with
+  | nil =>
+    intro cs d o res h hall
+    simp only [extraRest, Except.ok.injEq] at h
+    subst h
+    exact Or.inr hall
+  | cons n ex ih =>
+    intro cs d o res h hall
+    simp only [extraRest] at h
+    cases hd : descendTo n.index ((iat d o).factor + 1) (iat d o) with
+    | error e => rw [hd] at h; simp at h
+    | ok it1 =>
+      rw [hd] at h
+      simp only [] at h
+      obtain ⟨d1, o1, rfl, hidx⟩ := descendTo_canon n.index _ d o it1 hd
+      obtain ⟨⟨d', o', h1, _⟩, hback⟩ := appendRoot_back C bs cs n d1 o1 hidx.symm
+      generalize har : appendRoot C cs n (iat d1 o1) = ar at h h1 hback
+      obtain ⟨cs1, it2⟩ := ar
+      simp only at h h1 hback
+      rw [h1, iat_sibling] at h
+      rcases ih cs1 d' (sib o') res h hall with hcol | hprev
+      · exact Or.inl hcol
+      · rcases hback hprev with hcol | ⟨h2, _⟩
+        · exact Or.inl hcol
+        · exact Or.inr h2
 
 /-! ### first contact: block + upgrade on a replica without roots -/
 
@@ -351,7 +521,7 @@ theorem first_contact_sound (C : Crypto) (bs : Array Bytes) (wfork : Nat) (Signe
                     ⟨by show Iter.new 0 = iat 0 0; exact new_even 0, align_zero _, by simp [hcs1r], fun r hr => by
                       have : cs1.roots.getLast? = some r := hr
                       rw [hcs1r] at this; cases this⟩
-                  obtain ⟨_, hext⟩ := upgradeRoots_fresh C (u.start + u.length) hT _ _ st 0 hfresh0 hur
+                  obtain ⟨_, hext, _⟩ := upgradeRoots_fresh C (u.start + u.length) hT _ _ st 0 hfresh0 hur
                   have hrin : root ∈ st.cs.roots := hext root rfl (by simpa using hcons)
                   have hrin2 : root ∈ cs2.roots := by rw [← hcs2]; exact hrin
                   -- … hence a reference root
@@ -382,5 +552,138 @@ theorem first_contact_sound (C : Crypto) (bs : Array Bytes) (wfork : Nat) (Signe
                   rcases block_sound C (bs.extract 0 cs2.length) b.index b.value b.nodes _ _ root rn' hc hrh with h | ⟨h1, _, _⟩
                   · exact Or.inl h
                   · exact Or.inr (Or.inr (by rw [h1]; exact extract_getD bs _ _ hL hilt))
+
+/-- the adopted roots are authentic (what `upgrade_sound` says, as a statement about each root) -/
+theorem roots_auth (C : Crypto) (bsL : Array Bytes) (roots : List Node)
+    (h : roots.map (fun n => (n.hash, n.index, n.length)) = (RefTree.roots C bsL).map (fun n => (n.hash, n.index, n.length))) :
+    ∀ x ∈ roots, AuthH C bsL x := by
+  intro x hx
+  have hmem : (x.hash, x.index, x.length) ∈ roots.map (fun n => (n.hash, n.index, n.length)) := List.mem_map.mpr ⟨x, hx, rfl⟩
+  rw [h] at hmem
+  obtain ⟨ρ, hρ, hρe⟩ := List.mem_map.mp hmem
+  simp only [RefTree.roots, List.mem_map, List.mem_reverse] at hρ
+  obtain ⟨pos, _, rfl⟩ := hρ
+  simp only [Prod.mk.injEq] at hρe
+  obtain ⟨e1, e2, _⟩ := hρe
+  exact authH_at C bsL x pos.1 pos.2 e2.symm e1.symm
+
+/-- **First-contact proofs, with additional nodes** (a partial upgrade from 0: the writer completes the roots up
+    to its own length, which is what its signature covers).  As `first_contact_sound`, without the restriction on
+    `additional_nodes`: the block is the writer's block at that index within the adopted length. -/
+theorem first_contact_sound_extra (C : Crypto) (bs : Array Bytes) (wfork : Nat) (Signed : Bytes → Prop)
+    (t : Tree) (f : File) (pk : Bytes) (p : Proof) (b : DataBlock) (u : DataUpgrade) (cs' : Changeset)
+    (hb : p.block = some b) (hs : p.seek = none) (hu : p.upgrade = some u)
+    (hfresh : t.changeset.roots = [])
+    (hunf : ∀ m sig, C.verify pk m sig = true → Signed m)
+    (hsig : ∀ m, Signed m → ∃ n, n ≤ bs.size ∧ m = RefTree.signableOf C (bs.extract 0 n) wfork)
+    (hlen : ∀ x, (C.tree x).length = 32) (hsize : bs.size < 2 ^ 64) (hwf : wfork < 2 ^ 64)
+    (hb1 : cs'.length < 2 ^ 64) (hb2 : p.fork < 2 ^ 64) (hT : u.start + u.length < 2 ^ 64)
+    (hauth : StoreAuthentic C bs t f)
+    (hv : t.verifyProof C f p pk = .ok cs') :
+    Collision C ∨ TreeCollision C ∨ b.value = bs.getD b.index [] ∨ b.value = (bs.extract 0 cs'.length).getD b.index [] := by
+  unfold verifyProof at hv
+  simp only [hb, hs, hu, verifyTree, untrustedOf, noSeekOf, Option.isNone_some, Bool.false_and, Bool.false_eq_true,
+    ite_false, seekHalf, andThen, mainHalf] at hv
+  have hnew : Iter.new (b.index * 2) = iat 0 b.index := by rw [Nat.mul_comm]; exact new_even b.index
+  rw [hnew, plainQueue_eq] at hv
+  cases hc : climb C ((plainQueue b.nodes).length + 1) (plainQueue b.nodes) (iat 0 b.index)
+      (blockNode C (iat 0 b.index).index b.value) (blockNode C (iat 0 b.index).index b.value :: t.changeset.rnodes) with
+  | error e => rw [hc] at hv; simp at hv
+  | ok pr =>
+    obtain ⟨root, rn'⟩ := pr
+    rw [hc] at hv
+    simp only [] at hv
+    obtain ⟨hidx, _⟩ := climb_sound C bs b.nodes _ 0 b.index _ _ root rn' hc rfl
+    simp only [Nat.zero_add] at hidx
+    have hix : (iat 0 b.index).index = Flat.index 0 b.index := rfl
+    rw [hix] at hc
+    generalize hcs1 : ({ t.changeset with rnodes := rn' } : Changeset) = cs1 at hv
+    have hcs1r : cs1.roots = [] := by rw [← hcs1]; exact hfresh
+    cases hvu : verifyUpgrade C p.fork u (some root) pk cs1 with
+    | error e => rw [hvu] at hv; simp at hv
+    | ok pr2 =>
+      obtain ⟨consumed, cs2⟩ := pr2
+      rw [hvu] at hv
+      simp only [] at hv
+      have hup := upgrade_sound C bs wfork Signed p.fork u (some root) pk cs1 cs2 consumed hunf hsig hlen hsize hwf
+      cases hcon : consumed with
+      | false =>
+        rw [hcon] at hv
+        simp only [Bool.false_eq_true, ite_false] at hv
+        cases hreq : t.requiredNode f root.index with
+        | error e => rw [hreq] at hv; simp at hv
+        | ok v =>
+          rw [hreq] at hv
+          simp only [] at hv
+          by_cases hne : v.hash ≠ root.hash
+          · simp [hne] at hv
+          · have heq : v.hash = root.hash := by simpa using hne
+            have hnode : t.node? f root.index = some v := by
+              unfold requiredNode at hreq
+              cases hn : t.node? f root.index with
+              | none => simp [hn] at hreq
+              | some w => simp [hn] at hreq; rw [hreq]
+            rw [hidx] at hnode
+            have hrh : root.hash = (RefTree.node C bs b.nodes.length (b.index / 2 ^ b.nodes.length)).2 := by
+              rw [← heq]; exact hauth _ _ _ hnode
+            rcases block_sound C bs b.index b.value b.nodes _ _ root rn' hc hrh with h | ⟨h1, _, _⟩
+            · exact Or.inl h
+            · exact Or.inr (Or.inr (Or.inl h1))
+      | true =>
+        have hvu0 := hvu
+        rw [hcon] at hv hvu
+        simp only [ite_true, Except.ok.injEq] at hv
+        subst hv
+        rcases hup hb1 hb2 hvu0 with hcol | ⟨hL, _, hroots⟩
+        · exact Or.inr (Or.inl hcol)
+        · have hA2 := roots_auth C (bs.extract 0 cs2.length) cs2.roots hroots
+          unfold verifyUpgrade at hvu
+          simp only [andThen] at hvu
+          cases hur : upgradeRoots C (2 * (u.start + u.length)) (2 * (u.start + u.length) + 2)
+              ⟨cs1, Iter.new 0, NodeQueue.new u.nodes (some root), 0, !cs1.roots.isEmpty⟩ with
+          | error e => rw [hur] at hvu; simp at hvu
+          | ok st =>
+            rw [hur] at hvu
+            simp only [] at hvu
+            cases hlast : st.cs.roots.getLast? with
+            | none => rw [hlast] at hvu; simp at hvu
+            | some last =>
+              rw [hlast] at hvu
+              simp only [] at hvu
+              have hfresh0 : Fresh ⟨cs1, Iter.new 0, NodeQueue.new u.nodes (some root), 0, !cs1.roots.isEmpty⟩ 0 (u.start + u.length) :=
+                ⟨by show Iter.new 0 = iat 0 0; exact new_even 0, align_zero _, by simp [hcs1r], fun r hr => by
+                  have : cs1.roots.getLast? = some r := hr
+                  rw [hcs1r] at this; cases this⟩
+              obtain ⟨_, hext, hlastpos⟩ := upgradeRoots_fresh C (u.start + u.length) hT _ _ st 0 hfresh0 hur
+              obtain ⟨m, o, hli, hm64⟩ := hlastpos last hlast
+              have hnewlast : Iter.new last.index = iat m o := by rw [hli]; exact Offsets.new_index m o hm64
+              rw [hnewlast] at hvu
+              obtain ⟨⟨d', o', hcan⟩, hbackS⟩ := extraSiblings_back C (bs.extract 0 cs2.length) (u.additionalNodes.length + 1) st.cs m o u.additionalNodes
+              generalize hes : extraSiblings C (u.additionalNodes.length + 1) st.cs (iat m o) u.additionalNodes = es at hvu hcan hbackS
+              obtain ⟨csS, itS, exS⟩ := es
+              simp only at hvu hcan hbackS
+              cases her : extraRest C csS itS exS with
+              | error e => rw [her] at hvu; simp at hvu
+              | ok x =>
+                rw [her] at hvu
+                simp only [checkSignature] at hvu
+                split at hvu
+                · cases hvu
+                · split at hvu
+                  · cases hvu
+                  · simp only [Except.ok.injEq, Prod.mk.injEq] at hvu
+                    obtain ⟨hcons, hcs2⟩ := hvu
+                    have hAx : ∀ y ∈ x.1.roots, AuthH C (bs.extract 0 cs2.length) y := by
+                      intro y hy; apply hA2; rw [← hcs2]; exact hy
+                    rw [hcan] at her
+                    rcases extraRest_back C (bs.extract 0 cs2.length) exS csS d' o' x her hAx with hcol | hAS
+                    · exact Or.inl hcol
+                    · rcases hbackS hAS with hcol | hAst
+                      · exact Or.inl hcol
+                      · have hrin : root ∈ st.cs.roots := hext root rfl (by simpa using hcons)
+                        have hrh := hAst root hrin _ _ hidx
+                        rcases block_sound C (bs.extract 0 cs2.length) b.index b.value b.nodes _ _ root rn' hc hrh with h | ⟨h1, _, _⟩
+                        · exact Or.inl h
+                        · exact Or.inr (Or.inr (Or.inr h1))
 
 end HC.UpgradeSound
